@@ -16,7 +16,7 @@ import (
 	"github.com/btcsuite/btcd/wire/v2"
 )
 
-var cacheSizes = []uint64{0, 1 << 10, 4 << 10, 16 << 10, 64 << 10, 1 << 30}
+var cacheSizes = []uint64{0, 1 << 10, 4 << 10, 16 << 10, 64 << 10, 1 << 25}
 
 func runHistory(k *mon.Case) {
 	r := k.Rand
